@@ -1,7 +1,116 @@
-//! Lane `leaks` (stub).
+//! Lane `leaks` (C13): histories that end quiescent; at the end the ID table and both routing
+//! maps must be empty (oracle, read through the hooks), and the model must accept the whole trace
+//! including every intermediate table / gauge observation.
+use crate::lanes::routing::gen_script_ex;
+use crate::lanes::timeouts::f15_script;
 use crate::out::Out;
 use crate::rng::Rng;
+use crate::scen::*;
 
-pub fn run(_thorough: bool, _rng: Rng, out: Out) {
-    out.finish("stub lane: nothing generated yet");
+/// (applicable, clean, detail): applicable = the driver is alive and every operation the script
+/// issued is complete from its caller's point of view (future resolved; stream finished)
+pub fn quiescent_clean(trace: &[String]) -> (bool, String) {
+    let last_maps = trace.iter().rev().find(|t| t.starts_with("drv maps")).cloned().unwrap_or_else(|| String::from("drv maps r=[] s=[]"));
+    let tbl = trace.iter().rev().find(|t| t.starts_with("tbl")).cloned().unwrap_or_default();
+    let ended = trace.iter().any(|t| t.starts_with("drv result"));
+    let mut issued = 0usize;
+    let mut done = std::collections::HashSet::new();
+    let mut started_streams = std::collections::HashSet::new();
+    let mut finished = std::collections::HashSet::new();
+    let mut kinds: Vec<String> = vec![];
+    for t in trace {
+        let w: Vec<&str> = t.split(' ').collect();
+        match (w[0], w.get(1).copied().unwrap_or("")) {
+            ("cli", "issue") => {
+                issued += 1;
+                kinds.push(w[3].to_string());
+            }
+            ("cli", "done") => {
+                done.insert(w[2].to_string());
+                let i: usize = w[2].parse().unwrap_or(0);
+                if kinds.get(i).map(|k| k == "search").unwrap_or(false) && w[3] == "ack" {
+                    started_streams.insert(w[2].to_string());
+                }
+            }
+            ("cli", "finished") => {
+                finished.insert(w[2].to_string());
+            }
+            _ => {}
+        }
+    }
+    let complete = done.len() == issued && started_streams.iter().all(|s| finished.contains(s)) && !kinds.iter().any(|k| k == "unbind");
+    if ended || !complete {
+        return (true, String::from("not applicable"));
+    }
+    (last_maps.replace(", ", ",") == "drv maps r=[] s=[]" && tbl.ends_with("[]"), format!("{} | {}", last_maps, tbl))
+}
+
+pub fn run(thorough: bool, mut rng: Rng, mut out: Out) {
+    // corpus: the F8 / F9 / F15 witnesses
+    let corpus: Vec<(&str, Vec<Step>)> = vec![
+        ("F8 search read to the end", vec![
+            Step::Issue { kind: OpKind::Search, tmo_ms: None }, Step::Settle,
+            Step::Send { id: 1, op: 4, good: false }, Step::Send { id: 1, op: 5, good: true }, Step::Settle,
+            Step::Next(0), Step::Settle, Step::Next(0), Step::Settle, Step::Finish(0), Step::Settle, Step::Table]),
+        ("F9 abandon of an in-flight operation", vec![
+            Step::Issue { kind: OpKind::Single, tmo_ms: None }, Step::Settle,
+            Step::Issue { kind: OpKind::Abandon(1), tmo_ms: None }, Step::Settle, Step::Table]),
+        ("F15 scrub overtakes its request", f15_script()),
+    ];
+    for (name, sc) in corpus {
+        for rep in 0..if name.starts_with("F15") { 30 } else { 1 } {
+            let o = run_script(&sc);
+            let ev = to_model_events(&o.trace);
+            out.case(&format!("{} #{}", ev, rep), true);
+            out.m(&format!("conn.trace {}", ev), "accept");
+            let (clean, d) = quiescent_clean(&o.trace);
+            out.r(&format!("leaks.corpus {}", name), clean, &format!("{} | {}", d, ev));
+        }
+    }
+    let n = if thorough { 5000 } else { 400 };
+    for k in 0..n {
+        let n_ops = rng.range(3, if thorough { 40 } else { 14 }) as usize;
+        let script = gen_script_ex(&mut rng, n_ops, false, k % 2 == 0, true, k % 4 == 1);
+        let o = run_script(&script);
+        let ev = to_model_events(&o.trace);
+        out.case(&ev, true);
+        out.stat_n("events", o.trace.len() as u64);
+        out.stat(&format!("ops~{}", (n_ops / 5) * 5));
+        out.m(&format!("conn.trace {}", ev), "accept");
+        let (clean, d) = quiescent_clean(&o.trace);
+        out.stat(if d == "not applicable" { "quiescent.no" } else { "quiescent.yes" });
+        out.r(&format!("leaks.quiescent-state-empty script#{}", k), clean, &format!("{} | {}", d, ev));
+    }
+    // soak: many operations on one connection, table size stays O(outstanding)
+    let soak = if thorough { 20000 } else { 2000 };
+    let mut steps = vec![];
+    for i in 0..soak {
+        let id = i as i64 + 1;
+        match i % 3 {
+            0 => {
+                steps.push(Step::Issue { kind: OpKind::Single, tmo_ms: None });
+                steps.push(Step::Send { id, op: 11, good: true });
+            }
+            1 => {
+                steps.push(Step::Issue { kind: OpKind::Search, tmo_ms: None });
+                steps.push(Step::Send { id, op: 4, good: false });
+                steps.push(Step::Send { id, op: 5, good: true });
+                steps.push(Step::Settle);
+                steps.push(Step::Next(i));
+                steps.push(Step::Next(i));
+                steps.push(Step::Finish(i));
+            }
+            _ => {
+                steps.push(Step::Issue { kind: OpKind::Single, tmo_ms: Some(1) });
+                steps.push(Step::Tick(2));
+            }
+        }
+        steps.push(Step::Settle);
+    }
+    steps.push(Step::Table);
+    let o = run_script(&steps);
+    let (clean, d) = quiescent_clean(&o.trace);
+    out.case(&format!("soak {}", soak), true);
+    out.r(&format!("leaks.soak {} operations, table empty at the end", soak), clean, &d);
+    out.finish("histories of 3..14 (40 thorough) operations of every kind (single, search read to the end or finished early, abandon of finished/in-flight/unknown IDs, timeouts, unsolicited frames, stalled writes) that are drained to quiescence; non-trivial = all; distinct by FNV of the event trace");
 }
